@@ -1,2 +1,98 @@
+"""Tree part of C05: TTNS.compress respects per-node limits and the discarded-weight sandwich (bounded)."""
+import numpy as np
+
+from vk.rtc.harness import run_cases
+from vk.specs import tree as T
+from vk.specs import treeuniv as TU
+
+KE = 1e-9
+
+
+def subtree_dofs(bt, node):
+    out = [b for b in node.basis_sets if type(b).__name__ != "BasisDummy"]
+    for c in node.children:
+        out += subtree_dofs(bt, c)
+    return out
+
+
+def cut_spectrum(v, order, dims, sub):
+    idx = [order.index(b) for b in sub]
+    if not idx or len(idx) == len(order):
+        return np.array([np.linalg.norm(v)])
+    m = np.moveaxis(v.reshape(dims), idx, list(range(len(idx)))).reshape(int(np.prod([dims[i] for i in idx])), -1)
+    return np.linalg.svd(m, compute_uv=False)
+
+
+def worker(case, led):
+    n_nodes, flavour, seed, tier = case
+    from renormalizer.utils import CompressConfig, CompressCriteria
+    su = TU.setup(seed, n_nodes, flavour, max_dim=300)
+    if su is None or len(su["bt"].node_list) < 2:
+        return
+    bt, order, model, sectors, rng = su["bt"], su["order"], su["model"], su["sectors"], su["rng"]
+    dims = [b.nbas for b in order]
+    q = sectors[len(sectors) // 2]
+    a = TU.random_ttns(bt, q, 6, rng, complex_=rng.random() < 0.3)
+    if a is None:
+        return
+    a.canonicalise()
+    v0 = T.dense_ttns(a, order)
+    nrm0 = np.linalg.norm(v0)
+    nodes = a.node_list
+    spectra = {i: cut_spectrum(v0, order, dims, subtree_dofs(bt, bt.node_list[i])) for i in range(1, len(nodes))}
+    bd0 = list(a.bond_dims)
+    fn = "TTNS.compress"
+    nn = len(nodes)
+    configs = [("fixed", dict(M=M)) for M in (1, 2, 3, 64)] + [("fixed", dict(per_node=[int(rng.integers(1, 4)) for _ in range(nn + 1)])),
+                                                              ("threshold", dict(thr=0.3)), ("threshold", dict(thr=1e-3)), ("both", dict(M=2, thr=0.1))]
+    for crit, kw in configs:
+        x = a.copy()
+        cfg = CompressConfig(getattr(CompressCriteria, crit), threshold=kw.get("thr", 1e-3), max_bonddim=kw.get("M", 32))
+        if "per_node" in kw:
+            cfg.max_dims = np.array(kw["per_node"], dtype=int)
+        x.compress_config = cfg
+        key = (repr(su["shape"]), flavour, seed, crit, str(sorted(kw.items())))
+        rep = dict(TU.describe_tree(bt), flavour=flavour, seed=seed, criteria=crit, config={k: (list(map(int, v)) if isinstance(v, list) else v) for k, v in kw.items()}, bond_dims_before=bd0)
+        f = {"criteria": crit, "per_node": "per_node" in kw}
+        try:
+            x.compress()
+        except Exception as e:
+            led.check(False, f"post:{fn}:total", fn, f"raised {type(e).__name__}: {e}", key, f, rep)
+            continue
+        vc = T.dense_ttns(x, order)
+        bd = list(x.bond_dims)
+        nontriv = any(p < q_ for p, q_ in zip(bd, bd0))
+        if crit in ("fixed", "both"):
+            lim = kw.get("per_node") or [kw["M"]] * (nn + 1)
+            led.check(all(bd[i] <= lim[i] for i in range(1, nn)), f"post:{fn}:bond_limit", fn, f"bond dims {bd} exceed the per-node limits {list(lim)}", key + ("limit",), f, rep, nontriv)
+        led.check(all(p <= q_ for p, q_ in zip(bd, bd0)), f"post:{fn}:no_bond_grows", fn, f"{bd0} -> {bd}", key + ("grow",), f, rep, nontriv)
+        led.check(np.linalg.norm(vc) <= nrm0 * (1 + KE), f"post:{fn}:norm_not_increased", fn, f"{np.linalg.norm(vc)} > {nrm0}", key + ("norm",), f, rep, nontriv)
+        err = float(np.linalg.norm(vc - v0))
+        tails = [float(np.sum(spectra[i][bd[i]:] ** 2)) for i in range(1, nn)]
+        ub, lb = np.sqrt(sum(tails)), np.sqrt(max(tails + [0.0]))
+        led.check(err <= ub + KE * nrm0, f"post:{fn}:error_upper_bound", fn, f"||psi-psi_c||={err:.3e} > sqrt(sum discarded weights)={ub:.3e} (kept {bd[1:]})", key + ("ub",), f, rep, nontriv)
+        led.check(err >= lb - KE * nrm0, f"post:{fn}:error_lower_bound", fn, f"||psi-psi_c||={err:.3e} < largest single-bond discarded weight {lb:.3e}", key + ("lb",), f, rep, nontriv)
+        if crit == "fixed" and kw.get("M") == 64:
+            led.check(err <= 1e-9 * nrm0, f"post:{fn}:lossless_when_limit_exceeds_rank", fn, f"{err:.2e}", key + ("lossless",), f, rep)
+        led.check(not T.qnv_tree_violations(x), f"post:{fn}:qn_valid", fn, f"{T.qnv_tree_violations(x)[:1]}", key + ("qnv",), f, rep, nontriv)
+    # returned singular values = dense Schmidt spectra when nothing is truncated
+    try:
+        x = a.copy()
+        x.compress_config = CompressConfig(CompressCriteria.fixed, max_bonddim=64)
+        _, sarr = x.compress(ret_s=True)
+        ok, what = True, ""
+        for i in range(1, nn):
+            sd = np.sort(spectra[i])[::-1]
+            row = np.sort(np.asarray(sarr[i]))[::-1]
+            k = min(len(sd), len(row))
+            if np.abs(sd[:k] - row[:k]).max() > 1e-9 * nrm0 or np.abs(row[k:]).max(initial=0) > 1e-9 or np.abs(sd[k:]).max(initial=0) > 1e-9:
+                ok, what = False, f"node {i}: returned {row} vs dense {sd}"
+        led.check(ok, f"post:{fn}:ret_s_equals_dense_spectra", fn, what, (repr(su["shape"]), flavour, seed, "ret_s"), {}, dict(TU.describe_tree(bt), flavour=flavour, seed=seed))
+    except Exception as e:
+        led.check(False, f"post:{fn}:ret_s_total", fn, f"raised {e!r}", (repr(su["shape"]), flavour, seed, "ret_s"), {}, {})
+
+
 def check(run):
-    pass
+    seeds = list(range(run.seed * 100, run.seed * 100 + (3 if run.tier == "quick" else 10)))
+    cases = [(nn, fl, s, run.tier) for s in seeds for nn in (2, 3, 4, 5) for fl in ("spinqn", "holstein", "spin")]
+    run_cases(run, worker, cases)
